@@ -199,6 +199,34 @@ def tsan_run(ck, bdir, wd, mods):
         ck.notes.append("ThreadSanitizer (supporting, not gating): %d reports; first summary: %s" % (n, summ[0] if summ else "?"))
     return res
 
+def judge_exceptions(ck, ecases, io, found):
+    """per thread count: status, regions, number of assertion messages (the error WAS raised).  Distinguishes
+    a swallowed exception (raised, caller sees nothing) from a stale trigger (nothing is raised any more, 1 thread included)."""
+    ok = 0
+    for (c, desc), line in zip(ecases, io):
+        ints, _ = core.fparse(line)
+        th = [int(x) for x in c.split("|")[0].split()[6:]]
+        if not ints or ints == [-1] or len(ints) % 3:
+            ck.violation("exception case crashed: " + desc, "the process died instead of raising an exception the caller can catch (%s): %s" % (desc, line),
+                         dict(kind="exception", cases=[c], impl=[line]))
+            found.append("exception"); continue
+        sts, raised = ints[0::3], ints[2::3]
+        if all(r == 0 for r in raised) and all(s == 0 for s in sts):
+            ck.violation("stale exception trigger: " + desc,
+                         "the trigger no longer raises anything, with a single thread either (%s): statuses for threads %s = %s, assertion messages %s -- the check needs another trigger for this region"
+                         % (desc, th, sts, raised), dict(kind="exception-trigger", cases=[c], impl=[line]), found_input=False)
+        elif any(s == 0 and r > 0 for s, r in zip(sts, raised)):
+            ck.violation("exception swallowed: " + desc,
+                         "an error raised inside a parallel loop did not reach the caller (%s): for threads %s the assertion fired %s times but the statuses are %s (0 = returned normally)"
+                         % (desc, th, raised, sts), dict(kind="exception", cases=[c], impl=[line]))
+            found.append("exception")
+        elif len(set(sts)) > 1 or any(s == 0 for s in sts):
+            ck.violation("exception outcome depends on the thread count: " + desc, "statuses for threads %s = %s, assertion messages %s (%s)" % (th, sts, raised, desc),
+                         dict(kind="exception", cases=[c], impl=[line]))
+            found.append("exception")
+        else: ok += 1
+    return ok
+
 def main(replay=None):
     ck = core.Check(PROP, "proof")
     quick = ck.tier != "thorough"
@@ -256,11 +284,7 @@ def main(replay=None):
                 k, f = int(parts[2]), int(parts[3]); th = [int(x) for x in parts[5:5 + int(parts[4])]]
                 judge_diff(ck, c, o, "replayed model m%d" % k, f, th, found)
             elif parts[1] == "3":
-                ints, _ = core.fparse(o)
-                sts = ints[0::2] if ints else []
-                if not sts or any(s == 0 for s in sts) or len(set(sts)) > 1:
-                    ck.violation(rp.get("signature", "exception replay"), "replayed exception case: statuses per thread count %s (an exception was expected for every thread count)" % sts,
-                                 dict(kind="exception", cases=[c], impl=[o]))
+                judge_exceptions(ck, [(c, "replayed exception case")], [o], found)
             elif parts[1] == "4":
                 ints, fl = core.fparse(o)
                 if ints and ints[2] > 0 and (int(parts[3]) not in CRITICAL or fl[0] > ROUND_TOL * fl[1]):
@@ -386,6 +410,7 @@ def main(replay=None):
         th = THREADS if not big else [1, 4, 16]
         for f in fs:
             dcases.append((diff_case(k, f, th), desc, f, th))
+    dcases.append((diff_case(kx, 3, THREADS), "single-layer head (source domain bounded by the current barrier)", 3, THREADS))
     rc, io, err = core.run_harness(hb, [c[0] for c in dcases], wd, env=ENV, timeout=2400)
     ndiff_runs = 0; maxrel = 0.0; crit_diff = 0; fdist = {}
     for (c, desc, f, th), line in zip(dcases, io):
@@ -465,24 +490,12 @@ def main(replay=None):
                          dict(kind="configs", gcc=gcrit, clang=ccrit), found_input=False)
 
     # ------------------------------------------------------------ (c) exceptions raised inside a region
-    ecases = [("c05 3 0 %d 0 %d %s |" % (trig, len(THREADS), " ".join(map(str, THREADS))), "om_assert inside the %s loop (target too small), nested 3-layer model" % nm)
-              for trig, nm in ((1, "S"), (2, "D"), (3, "N"))]
-    ecases.append(("c05 3 %d 4 3 %d %s |" % (kx, len(THREADS), " ".join(map(str, THREADS))), "SurfSourceMat on a single-layer head (D block row of a current-barrier triangle)"))
+    TRIGGERS = {1: "DiagonalBlock::S", 2: "DiagonalBlock::D", 3: "DiagonalBlock::N", 5: "NonDiagonalBlock::S", 6: "NonDiagonalBlock::N",
+                7: "NonDiagonalBlock::D", 8: "operatorFerguson", 9: "operatorDipolePotDer", 10: "operatorDipolePot"}
+    ecases = [("c05 3 0 %d 0 %d %s |" % (trig, len(THREADS), " ".join(map(str, THREADS))),
+               "om_assert inside the region of %s (caller's target too small for the unknown indices), nested 3-layer model" % nm) for trig, nm in sorted(TRIGGERS.items())]
     rc, io, err = core.run_harness(hb, [c[0] for c in ecases], wd, env=ENV)
-    exc_ok = 0
-    for (c, desc), line in zip(ecases, io):
-        ints, _ = core.fparse(line)
-        sts = ints[0::2] if ints else []
-        if not sts or ints == [-1]:
-            ck.violation("exception case crashed: " + desc, "the process died instead of raising (%s): %s" % (desc, line), dict(kind="exception", cases=[c], impl=[line]))
-        elif any(s == 0 for s in sts):
-            ck.violation("exception swallowed: " + desc,
-                         "an exception raised inside a parallel loop did not reach the caller (%s): statuses for threads %s = %s (0 = returned normally)" % (desc, THREADS, sts),
-                         dict(kind="exception", cases=[c], impl=[line]))
-            found.append("exception")
-        elif len(set(sts)) > 1:
-            ck.violation("exception kind depends on the thread count: " + desc, "statuses for threads %s = %s" % (THREADS, sts), dict(kind="exception", cases=[c], impl=[line]))
-        else: exc_ok += 1
+    exc_ok = judge_exceptions(ck, ecases, io, found)
 
     # ------------------------------------------------------------ search when a proof / the translator / a footprint broke
     hammered = 0
